@@ -30,8 +30,10 @@ class _Lazy:
     cls = None  # type: typing.Any
 
 
-def MemDefinition(full_name: str, version: typing.Tuple[int, int], text: str,
-                  fixed_port_id: typing.Optional[int] = None, root: str = MEMROOT) -> typing.Any:
+def MemDefinition(full_name: str, version: typing.Tuple[typing.Any, typing.Any], text: str,
+                  fixed_port_id: typing.Optional[typing.Any] = None, root: str = MEMROOT,
+                  plain_file_name: bool = False) -> typing.Any:
+    """plain_file_name=True keeps version / port-ID out of the (fake) file name, so they may be symbolic."""
     from pydsdl._dsdl_definition import DSDLDefinition
     from pydsdl._serializable import Version
 
@@ -39,12 +41,15 @@ def MemDefinition(full_name: str, version: typing.Tuple[int, int], text: str,
 
         class _Mem(DSDLDefinition):  # type: ignore
             def __init__(self, full_name: str, version: typing.Tuple[int, int], text: str,
-                         fixed_port_id: typing.Optional[int], root: str) -> None:  # pylint: disable=super-init-not-called
+                         fixed_port_id: typing.Optional[int], root: str, plain: bool) -> None:  # pylint: disable=super-init-not-called
                 comps = full_name.split(".")
                 self._root_namespace_path = Path(root) / comps[0]
-                base = "%s.%d.%d.dsdl" % (comps[-1], version[0], version[1])
-                if fixed_port_id is not None:
-                    base = "%d.%s" % (fixed_port_id, base)
+                if plain:
+                    base = "%s.dsdl" % comps[-1]
+                else:
+                    base = "%s.%d.%d.dsdl" % (comps[-1], version[0], version[1])
+                    if fixed_port_id is not None:
+                        base = "%d.%s" % (fixed_port_id, base)
                 self._file_path = Path(root).joinpath(*comps[:-1]) / base
                 self._text = text
                 self._fixed_port_id = fixed_port_id
@@ -53,7 +58,7 @@ def MemDefinition(full_name: str, version: typing.Tuple[int, int], text: str,
                 self._cached_type = None
 
         _Lazy.cls = _Mem
-    return _Lazy.cls(full_name, version, text, fixed_port_id, root)
+    return _Lazy.cls(full_name, version, text, fixed_port_id, root, plain_file_name)
 
 
 class Captures:
